@@ -22,8 +22,8 @@ package varmq
 //@   props C07
 //@   requires c != nil
 //@   modifies c.Id
-//@   ensures [empty] id == "" ==> c.Id == old(c.Id)
-//@   ensures [set]   id != "" ==> c.Id == id
+//@   ensures [empty] $deref(id) == "" ==> c.Id == old(c.Id)
+//@   ensures [set]   $deref(id) != "" ==> c.Id == $deref(id)
 
 // ---------------------------------------------------------------- binding a queue: registered exactly once
 //@ pred QM(w *worker) := RI_Manager($addr(w.queues.Manager)) && len(w.queues.Manager.items) < MaxInt
